@@ -5,6 +5,7 @@ import (
 	"encoding/json"
 	"fmt"
 	"sort"
+	"strconv"
 	"strings"
 
 	"github.com/corazawaf/coraza/v3/internal/verif/mc"
@@ -177,6 +178,8 @@ func run(c *runner.Ctx) {
 		{Targets: []sm.Target{{Coll: "ARGS_GET"}}, Op: "rx", Arg: "^x", Trans: []string{"uppercase", "lowercase"}},
 		{Targets: []sm.Target{{Coll: "ARGS"}}, Op: "contains", Arg: "y", Trans: []string{"lowercase", "trim", "uppercase"}},
 	}
+	// part 3: many values in one collection
+	checkWide(c, &idx)
 	for _, f := range first {
 		for _, s := range second {
 			for _, ph := range [][2]int{{2, 2}, {2, 1}, {1, 2}} {
@@ -199,6 +202,83 @@ func run(c *runner.Ctx) {
 			}
 		}
 	}
+}
+
+// wideRequests: many values in one collection (power-of-two sizes and their neighbours up to 300, below the default
+// argument limit): under many distinct names, and all under one name. Exactness must not depend on how many values match.
+func wideRequests(emit func(q sm.Request)) {
+	for _, n := range []int{9, 17, 31, 32, 33, 64, 65, 100, 128, 129, 256, 257, 300} {
+		for shape := 0; shape < 2; shape++ {
+			var q sm.Request
+			for i := 0; i < n; i++ {
+				name := fmt.Sprintf("k%03d", i)
+				if shape == 1 {
+					name = "a"
+				}
+				v := "x" + strconv.Itoa(i)
+				if i%5 == 4 {
+					v = "y" + strconv.Itoa(i) // does not match ^x
+				}
+				q.Get = append(q.Get, sm.Pair{N: name, V: v})
+				q.Post = append(q.Post, sm.Pair{N: name, V: strings.ToUpper(v)})
+				if n <= 64 {
+					q.Cookie = append(q.Cookie, sm.Pair{N: name, V: v})
+				}
+			}
+			emit(q)
+		}
+	}
+}
+
+func checkWide(c *runner.Ctx, idx *int) {
+	progs := [][]*sm.Rule{
+		{{ID: 1, Phase: 2, Targets: []sm.Target{{Coll: "ARGS_GET"}}, Op: "rx", Arg: "^x"}},
+		{{ID: 1, Phase: 2, Targets: []sm.Target{{Coll: "ARGS"}}, Op: "rx", Arg: "^x", Trans: []string{"lowercase"}}},
+		{{ID: 1, Phase: 2, Targets: []sm.Target{{Coll: "ARGS_POST"}}, Op: "rx", Arg: "^x", Trans: []string{"lowercase"}, Multi: true}},
+		{{ID: 1, Phase: 2, Targets: []sm.Target{{Coll: "ARGS_NAMES"}}, Op: "rx", Arg: "^k"}},
+		{{ID: 1, Phase: 2, Targets: []sm.Target{{Coll: "ARGS_GET", Rx: "^k0"}}, Excls: []sm.Excl{{Coll: "ARGS_GET", Rx: "7$"}}, Op: "contains", Arg: "x"}},
+		{{ID: 1, Phase: 2, Targets: []sm.Target{{Coll: "ARGS_GET", Count: true}}, Op: "eq", Arg: "33"}},
+		{{ID: 1, Phase: 2, Targets: []sm.Target{{Coll: "REQUEST_COOKIES"}}, Op: "rx", Arg: "^x"}},
+		{{ID: 1, Phase: 2, Targets: []sm.Target{{Coll: "ARGS_GET", Key: "a"}}, Op: "rx", Arg: "^x", Neg: true}},
+		{{ID: 1, Phase: 2, Targets: []sm.Target{{Coll: "ARGS_GET"}}, Op: "rx", Arg: "^x", Chain: &sm.Rule{Targets: []sm.Target{{Coll: "ARGS_POST"}}, Op: "rx", Arg: "^Y"}}},
+	}
+	for _, rules := range progs {
+		*idx++
+		if !c.Mine(*idx) || c.Expired() {
+			continue
+		}
+		conf := sm.Config(rules)
+		w, err := scen.Build(conf)
+		if err != nil {
+			c.Violation("build:"+firstLine(err.Error()), "generated configuration rejected: "+err.Error()+"\n"+conf, kase{Rules: rules})
+			continue
+		}
+		wideRequests(func(q sm.Request) {
+			want, spec := sm.Eval(rules, q)
+			if !spec {
+				c.Count("skipped_unspecified", 1)
+				return
+			}
+			o := scen.Run(w, q.Scen(), scen.Options{})
+			c.Count("evaluations", 1)
+			c.Count("wide_requests", 1)
+			got, exp := render(o), renderWant(want)
+			if got != exp {
+				c.Violation("many-values:"+classify(rules, q, o, want), fmt.Sprintf("configuration:\n%srequest with %d GET / %d POST / %d cookie values\n--- engine:\n%s--- reference model:\n%s", conf, len(q.Get), len(q.Post), len(q.Cookie), clip(got), clip(exp)), kase{Rules: rules, Req: q})
+			}
+			c.Outcome(got)
+			b, _ := json.Marshal(kase{Rules: rules, Req: q})
+			c.Distinct(string(b))
+		})
+		scen.Close(w)
+	}
+}
+
+func clip(s string) string {
+	if len(s) > 1500 {
+		return s[:700] + "\n...[" + strconv.Itoa(len(s)) + " bytes]...\n" + s[len(s)-700:]
+	}
+	return s
 }
 
 func checkProgram(c *runner.Ctx, rules []*sm.Rule, pl []int) {
